@@ -361,7 +361,23 @@ func c20GenLabAddr(r *rand.Rand) labAddr {
 	}
 	oct := func() int { return r.Intn(256) }
 	var t tmpl
-	switch r.Intn(14) {
+	switch r.Intn(16) {
+	case 14:
+		// zoned IPv6: the zone comes first, the address that decides second (few zones, so that lists hold several
+		// addresses of one zone)
+		z := []string{"eth0", "eth0", "en1"}[r.Intn(3)]
+		switch r.Intn(4) {
+		case 0:
+			t = tmpl{fmt.Sprintf("/ip6zone/%s/ip6/fe80::%x", z, 1+r.Intn(65535)), "private"}
+		case 1:
+			t = tmpl{fmt.Sprintf("/ip6zone/%s/ip6/2606:4700:%x::%x", z, r.Intn(65536), 1+r.Intn(65535)), "public"}
+		case 2:
+			t = tmpl{fmt.Sprintf("/ip6zone/%s/ip6/::1", z), "loopback"}
+		default:
+			t = tmpl{fmt.Sprintf("/ip6zone/%s/ip6/::", z), "unspecified"}
+		}
+	case 15:
+		t = tmpl{fmt.Sprintf("/ip6/fe80::%x", 1+r.Intn(65535)), "private"}
 	case 0:
 		t = tmpl{fmt.Sprintf("/ip4/%d.%d.%d.%d", []int{8, 1, 93, 151, 52}[r.Intn(5)], oct(), oct(), 1+r.Intn(254)), "public"}
 	case 1:
@@ -394,8 +410,15 @@ func c20GenLabAddr(r *rand.Rand) labAddr {
 	}
 	s := t.base
 	isHTTP := false
-	switch r.Intn(7) {
+	switch r.Intn(9) {
 	case 0:
+	case 7:
+		// (what a URL without a port converts to: no tcp component)
+		s += []string{"/http", "/https", "/tls/http"}[r.Intn(3)]
+		isHTTP = true
+	case 8:
+		s += "/https/http-path/cid"
+		isHTTP = true
 	case 1:
 		s += fmt.Sprintf("/tcp/%d", r.Intn(65536))
 	case 2:
